@@ -6,7 +6,11 @@ Necessary structural conditions (the conversions' values on every string are not
       order, result Not-ed once); the table binds both with exactly two operands
       and passes operand 0 and operand 1 in that order;
   K2  kind-pair coverage: the outcome of the equality function for each of the 36
-      pairs of JSON kinds (variant specialisation, identity shortcut excluded)
+      pairs of JSON kinds — read off its decision cases with the kinds of both
+      parameters fixed (rules/pairs.py decision_matrix: private helpers inlined,
+      kind tests/accessors answered from the kinds, each case read as a constant,
+      a comparison of the payloads or the recursion with a converted operand;
+      a case that cannot be read is UNDECIDED, never a pass) —
       equals ECMA-262 IsLooselyEqual transcribed in spec/arms/abstract_eq.json —
       same-kind primitives compared directly (numbers as doubles with float Eq,
       strings/booleans by equality), Number×String through the shared
@@ -119,7 +123,7 @@ def negation_of(facts, fneg, fpos):
 
 def run(ctx):
     ctx.explanation = __doc__
-    ctx.rule = "instances = 36 kind pairs × (outcome vs ECMA-262, symmetry) + negation/binding facts + conversion facts; non-trivial = every pair decided by specialisation"
+    ctx.rule = "instances = 36 kind pairs × (outcome vs ECMA-262, symmetry) + negation/binding facts + conversion facts; non-trivial = every pair decided on its decision cases"
     ctx.trusted = ["spec/arms/abstract_eq.json transcribes ECMA-262 7.2.14 for JSON kinds", "serde_json::Number::as_f64", "the string form (to_string) is C16's business", "Rust's f64 parser on decimal literals"]
     spec = json.load(open(os.path.join(VERIF, "spec", "arms", "abstract_eq.json")))["matrix"]
     from . import manifest as _MF
@@ -148,35 +152,65 @@ def run(ctx):
         # the string form through which containers are compared (structure as in C16 K4)
         from .c16 import to_string_role, string_form_clauses
         string_form_clauses(ctx, facts, roles, to_string_role(facts), cfg, "K5")
-        # ---------------- K2 / K3
-        m = pairs.pair_matrix(roles, f_eq, str_to_number_key=s2n.key)
+        # ---------------- K2 / K3: the matrix read off the decision cases (rules/pairs.py: kinds of both parameters fixed,
+        # private helpers inlined, serde_json's kind tests answered from the kinds, every case read as constant /
+        # comparison of payloads / recursion with a converted operand)
+        strf = to_string_role(facts)
+        m = pairs.decision_matrix(roles, f_eq, str_to_number_key=s2n.key, to_string_key=strf.key if strf is not None else None)
         ctx.floor("kind pairs (%s)" % cfg, len(m), 36)
+        ctx.floor("kind pairs read (%s)" % cfg, sum(1 for o in m.values() if not o.kind.startswith("UNREAD")), 1)
+        nconv = 0
         for (a, b), o in sorted(m.items()):
             want = spec["%s,%s" % (a, b)]
-            ctx.check(o.kind == want, "K2.pair", "%s == %s (%s)" % (a, b, cfg), "%s == %s is decided as %s; ECMAScript: %s" % (a, b, o.kind, want), where=f_eq.where(), fn=f_eq.key, nontrivial=True,
-                      sample={"pair": "%s,%s" % (a, b), "outcome": o.kind} if (a, b) in (("Number", "String"), ("Bool", "Array"), ("Null", "Null"), ("Array", "Array")) else None)
+            if o.kind.startswith("UNREAD"):
+                ctx.unread("K2.pair", "%s == %s (%s)" % (a, b, cfg), "the case for %s == %s is written in a form that is not read: %s" % (a, b, o.kind[7:-1]), where=f_eq.where(), fn=f_eq.key)
+                continue
+            ctx.check(o.kind == want, "K2.pair", "%s == %s (%s)" % (a, b, cfg), "%s == %s is decided as %s; ECMAScript: %s [%s]" % (a, b, o.kind, want, "; ".join(o.detail.get("rows", []))[:300]), where=f_eq.where(), fn=f_eq.key, nontrivial=True,
+                      sample={"pair": "%s,%s" % (a, b), "outcome": o.kind, "cases": o.detail.get("rows")} if (a, b) in (("Number", "String"), ("Bool", "Array"), ("Null", "Null"), ("Array", "Array")) else None)
             if o.kind.startswith("SPELLING") or o.kind.startswith("INT") or o.kind.startswith("MIXED"):
-                ctx.fail("K3.numeric", "%s,%s" % (a, b), "numbers are compared by %s rather than as doubles" % o.kind, where=f_eq.where(), fn=f_eq.key)
+                ctx.fail("K3.numeric", "%s,%s" % (a, b), "numbers are compared by %s rather than as doubles (%s)" % (o.kind, ", ".join(sorted(set(o.detail.get("int_accessors", []) + o.detail.get("value_eq", []))))), where=f_eq.where(), fn=f_eq.key)
             # conversions used by the recursion
-            for (nxt, conv, cb, cbi) in o.detail.get("rec", []):
-                for (p, how, inner) in conv:
-                    if nxt[p - 1] == "String":
+            kinds = {1: a, 2: b}
+            for r in o.detail.get("rec", []):
+                for p, op in enumerate(r["operands"], 1):
+                    key = "%s,%s: operand %d" % (a, b, p)
+                    if op[0] == "str-of":
+                        how = op[2]
                         ok = isinstance(how, str) and facts.items.get(how, {}).get("output") == "std::string::String" and facts.items.get(how, {}).get("inputs") == ["&serde_json::Value"]
-                        ctx.check(bool(ok), "K2.container-to-string", "%s,%s: container replaced by its string form (%s)" % (a, b, cfg), "container operand converted by %s" % how, where=cb.where(cbi), fn=cb.key)
-                        src = strip_refs(inner[2][0]) if inner[0] == "call" and inner[2] else None
-                        ctx.check(src == ("arg", p), "K2.converts-own-operand", "%s,%s: operand %d is replaced by the string form of operand %d itself (%s)" % (a, b, p, p, cfg),
-                                  "in the recursion for %s,%s operand %d is replaced by the string form of %s" % (a, b, p, show_expr(src) if src else "?"), where=cb.where(cbi), fn=cb.key, nontrivial=True)
+                        ctx.check(bool(ok), "K2.container-to-string", "%s,%s: container replaced by its string form (%s)" % (a, b, cfg), "container operand converted by %s" % how, where=f_eq.where(), fn=f_eq.key)
+                        ctx.check(op[1] == p, "K2.converts-own-operand", "%s,%s: operand %d is replaced by the string form of operand %d itself (%s)" % (a, b, p, p, cfg),
+                                  "in the recursion for %s,%s operand %d is replaced by the string form of %s" % (a, b, p, ("operand %d" % op[1]) if op[1] else show_expr(op[3])[:80]), where=f_eq.where(), fn=f_eq.key, nontrivial=True)
+                    elif op[0] == "num":
+                        # true → 1, false → 0: the number handed on is from_f64(c) with c fixed by the boolean on this case
+                        src = op[1]
+                        truth = [t[2] for t in r["atoms"] if t[0] == "bool" and t[1] == p]
+                        if kinds[p] != "Bool":
+                            continue        # not a boolean: the pair's outcome above says what is wrong
+                        nconv += 1
+                        if src and src[0] == "from_f64" and isinstance(src[1], tuple) and src[1][0] == "bool":
+                            ctx.check(src[1][1] == p, "K2.true-is-one", "%s: the boolean cast to a number (%s)" % (key, cfg), "operand %d is replaced by the number of the boolean operand %d" % (p, src[1][1]), where=f_eq.where(), fn=f_eq.key, nontrivial=True)
+                        elif src and src[0] == "from_f64" and isinstance(src[1], float):
+                            t = truth[0] if len(truth) == 1 else None
+                            ctx.check(t is not None and src[1] == (1.0 if t else 0.0), "K2.true-is-one", "%s: %s → %s (%s)" % (key, t, src[1], cfg),
+                                      "a boolean %s is converted to the number %s (ECMAScript: true → 1, false → 0)" % ("of either value" if t is None else t, src[1]), where=f_eq.where(), fn=f_eq.key, nontrivial=True)
+                        else:
+                            ctx.unread("K2.true-is-one", "%s (%s)" % (key, cfg), "the number a boolean is replaced by is not from_f64 of a constant or of the boolean: %s" % show_expr(op[2])[:100], where=f_eq.where(), fn=f_eq.key)
         for a in pairs.KINDS:
             for b in pairs.KINDS:
                 ka, kb = m[(a, b)].kind, m[(b, a)].kind
-                mirror = re.sub(r"\((\w+),(\w+)\)", lambda mm: "(%s,%s)" % (mm.group(2), mm.group(1)), ka)
+                if ka.startswith("UNREAD") or kb.startswith("UNREAD"):
+                    continue
+                mirror = re.sub(r"\((\w+|\?),(\w+|\?)\)", lambda mm: "(%s,%s)" % (mm.group(2), mm.group(1)), ka)
+                mirror = "REC:" + "|".join(sorted(mirror[4:].split("|"))) if mirror.startswith("REC:") else mirror
                 ctx.check(kb == mirror, "K2.symmetric", "%s,%s mirrors %s,%s (%s)" % (a, b, b, a, cfg), "%s==%s is %s but %s==%s is %s" % (a, b, ka, b, a, kb), where=f_eq.where(), fn=f_eq.key)
-        # true→1 / false→0
-        bool_number(ctx, facts, roles, f_eq, cfg)
+        if not any(o.kind.startswith("UNREAD") for o in m.values()):
+            ctx.floor("boolean→number conversion sites (%s)" % cfg, nconv, 1)
 
 
 def bool_number(ctx, facts, roles, f, cfg):
-    """Every Number::from_f64(c) that turns a boolean operand into a number gets c = 1 on the paths where the boolean is
+    """(Superseded by the reading of the recursion's operands in run(): K2.true-is-one is now decided on the decision
+    cases of each Bool×x pair.  Kept as the worked example of a path-summary rule that README_READERS.md refers to.)
+    Every Number::from_f64(c) that turns a boolean operand into a number gets c = 1 on the paths where the boolean is
     true and c = 0 where it is false — read off the path summaries (rules/pathsum.py), so it does not matter whether the
     choice is two match arms, an `if` feeding one conversion site, or a cast of the boolean."""
     from . import pathsum
